@@ -7,12 +7,20 @@ mod l_compile;
 mod l_resolve;
 mod l_wasm;
 mod l_lspdoc;
+mod l_lspdiag;
 mod l_syntax;
 mod l_eval;
 
 fn main() {
     let args: Vec<String> = std::env::args().collect();
-    let layer = args.get(1).map(|s| s.as_str()).unwrap_or("");
+    let from_env = std::env::var("OALIMPL_LAYER").unwrap_or_default();
+    let layer = args.get(1).map(|s| s.as_str()).unwrap_or(from_env.as_str());
+    if layer == "lspdiag" && args.len() > 1 {
+        // oal-client's Config parses the command line of the process (clap): run the layer in a child without arguments
+        let exe = std::env::current_exe().expect("own path");
+        let st = std::process::Command::new(exe).env("OALIMPL_LAYER", "lspdiag").status().expect("child");
+        std::process::exit(st.code().unwrap_or(3));
+    }
     match layer {
         "pos" => l_pos::run(),
         "unify" => l_unify::run(),
@@ -21,6 +29,7 @@ fn main() {
         "resolve" => l_resolve::run(),
         "wasm" => l_wasm::run(),
         "lspdoc" => l_lspdoc::run(),
+        "lspdiag" => l_lspdiag::run(),
         "syntax" => l_syntax::run(),
         "eval" => l_eval::run(),
         _ => {
